@@ -49,6 +49,10 @@ pub struct TFile {
     /// ends with a newline; 5 padding, only the old state ends with a newline
     #[serde(default)]
     pub tail: u8,
+    /// bit i set (together with bit i of `outside`): the outside edit in front of block i is a PURE DELETION of a
+    /// line directly above the block's first tag-comment line (code outside the block), not a replaced padding line
+    #[serde(default)]
+    pub outside_del: u8,
 }
 
 #[derive(Clone, Debug, Serialize, Deserialize, Hash, PartialEq, Eq)]
@@ -84,6 +88,9 @@ pub struct Extent {
     /// the only edit deletes a character right behind the tag's `>` that equals it: whether the tag itself is
     /// "touched" is not decidable from the two texts, so selection is taken as observed (never a content change)
     pub either: bool,
+    /// a line directly above this block's start-tag line was deleted (and nothing else moved lines before):
+    /// K9 shape
+    pub deleted_above: bool,
 }
 
 pub struct RenderedFile {
@@ -142,7 +149,16 @@ pub fn render_file(fi: usize, f: &TFile) -> RenderedFile {
         }
     };
     for (bi, b) in f.blocks.iter().enumerate() {
-        pad(&mut new, &mut old, f.outside & (1 << bi) != 0);
+        let want_del_above = f.outside & f.outside_del & (1 << bi) != 0;
+        let del_above = want_del_above && !shifted;
+        if want_del_above && shifted {
+            k1_excluded += 1;
+        }
+        pad(&mut new, &mut old, f.outside & (1 << bi) != 0 && !del_above);
+        if del_above {
+            old.push("removed_line_above_the_block();".to_string());
+            shifted = true;
+        }
         let name = format!("f{fi}b{bi}");
         // layout 4: both tags inside ONE multi-line block comment, the start tag below its first line (no content);
         // layout 5: the block is nested in an untouched outer block whose start tag shares a comment with this one's
@@ -320,7 +336,9 @@ pub fn render_file(fi: usize, f: &TFile) -> RenderedFile {
         }
         let end_line = new.len();
         let outer_name = format!("{name}-outer");
-        extents.push(Extent { name, tag_line, end_line, selected: classes & (INSIDE | TAG) != 0, content_modified: classes & INSIDE != 0, either: classes & (INSIDE | TAG) == TAG && b.tag_kind % 6 == 4 });
+        // (the deleted line sat directly above the start TAG's line only where the tag opens its comment's first line)
+        let tag_directly_below = del_above && !matches!(layout, 4 | 5);
+        extents.push(Extent { name, tag_line, end_line, selected: classes & (INSIDE | TAG) != 0, content_modified: classes & INSIDE != 0, either: classes & (INSIDE | TAG) == TAG && b.tag_kind % 6 == 4, deleted_above: tag_directly_below });
         if layout == 5 {
             // the outer block: its content (everything after the shared comment) holds the inner block's content
             // and end-tag line; the inner start tag is comment text, not content
@@ -328,7 +346,7 @@ pub fn render_file(fi: usize, f: &TFile) -> RenderedFile {
                 v.push(format!("{open}</block>{close}"));
             }
             let touched = classes & (INSIDE | ENDTAG) != 0;
-            extents.push(Extent { name: outer_name, tag_line: tag_line - 1, end_line: new.len(), selected: touched, content_modified: touched, either: false });
+            extents.push(Extent { name: outer_name, tag_line: tag_line - 1, end_line: new.len(), selected: touched, content_modified: touched, either: false, deleted_above: del_above });
         }
     }
     // a file that ends in a one-line block keeps its padding: a newline-only change of that line would touch tag and content at once
@@ -390,6 +408,7 @@ pub fn check(c: &TouchCase, probe: &Probe) -> Verdict {
     probe.class_n("blocks:selected", all_ext.iter().filter(|e| e.selected).count() as u64);
     probe.class_n("blocks:tag-only", all_ext.iter().filter(|e| e.selected && !e.content_modified).count() as u64);
     probe.class_n("blocks:not-selected", all_ext.iter().filter(|e| !e.selected).count() as u64);
+    probe.class_n("outside-edit:line-deleted-directly-above-a-start-tag(K9 shape)", all_ext.iter().filter(|e| e.deleted_above).count() as u64);
     probe.class_n("excluded-by-construction:deletion-after-shift(K1)", files.iter().map(|f| f.k1_excluded as u64).sum());
 
     if lo.timed_out || lo.panicked() || lo.code != Some(0) {
@@ -402,6 +421,14 @@ pub fn check(c: &TouchCase, probe: &Probe) -> Verdict {
     let got: BTreeMap<(String, String), bool> = listing.iter().map(|l| ((l.file.clone(), l.name.clone()), l.modified)).collect();
     let want: BTreeMap<(String, String), bool> = files.iter().flat_map(|f| f.extents.iter().filter(|e| e.selected).map(|e| ((f.path.clone(), e.name.clone()), e.content_modified))).collect();
     if got != want {
+        // K9: a pure deletion directly above a start-tag line is recorded on the tag's line as a whole-line change
+        // (the block is selected; its content counts as modified when the tag's comment ends on that line)
+        let k9_blocks: Vec<(String, String)> = files.iter().flat_map(|f| f.extents.iter().filter(|e| e.deleted_above).map(|e| (f.path.clone(), e.name.clone()))).collect();
+        let differing: Vec<&(String, String)> = want.keys().chain(got.keys()).filter(|k| want.get(*k) != got.get(*k)).collect();
+        if !differing.is_empty() && differing.iter().all(|k| k9_blocks.contains(k) && got.contains_key(*k) && (!want.contains_key(*k) || (want.get(*k) == Some(&false) && got.get(*k) == Some(&true)))) && known::listed("K9") {
+            probe.class("known:K9");
+            return Verdict::Known("K9");
+        }
         let missing: Vec<_> = want.iter().filter(|(k, v)| got.get(*k) != Some(v)).collect();
         let extra: Vec<_> = got.iter().filter(|(k, v)| want.get(*k) != Some(v)).collect();
         return Verdict::Fail(show(&format!("selection differs. expected (block -> is_content_modified) but not observed so: {missing:?}; observed but not expected so: {extra:?}"), &lo));
@@ -526,7 +553,7 @@ pub fn block_strategy() -> BoxedStrategy<TBlock> {
 }
 
 pub fn case_strategy() -> BoxedStrategy<TouchCase> {
-    let file = (0u8..5, proptest::collection::vec(block_strategy(), 2..8), any::<u8>(), prop_oneof![3 => Just(0u8), 3 => 1u8..6]).prop_map(|(host, blocks, outside, tail)| TFile { host, blocks, outside, tail });
+    let file = (0u8..5, proptest::collection::vec(block_strategy(), 2..8), any::<u8>(), prop_oneof![3 => Just(0u8), 3 => 1u8..6], prop_oneof![3 => Just(0u8), 2 => any::<u8>()]).prop_map(|(host, blocks, outside, tail, outside_del)| TFile { host, blocks, outside, tail, outside_del });
     (proptest::collection::vec(file, 1..4), 0u8..11, prop_oneof![2 => Just(0u8), 1 => 1u8..8]).prop_map(|(files, unified, globs)| TouchCase { files, unified, globs }).boxed()
 }
 
@@ -778,12 +805,13 @@ pub fn check_no_selection(c: &NoSelection, probe: &Probe) -> Verdict {
 
 pub fn run(run: &mut Run) {
     run.enumerate("no-selection", no_selection_cases(), Some("every non-empty combination of {deletion, binary change, mode change, pure rename} entries x {staged -U0, HEAD -U3}"), check_no_selection);
-    run.rule = "enumerated no-selection: diffs made only of deletions / binary changes / mode changes / pure renames (every combination) next to an untouched violating file: nothing is validated, `list` prints `{}`. random: 1..3 files (js, sh, rs, py, c) x 2..7 uniquely named non-nested blocks (own-line line comments, own-line block comments, everything on one line, a start tag spread over three lines with the edited attribute on the middle one, both tags inside one multi-line block comment (whose text behind the tags is in half of the cases edited too: the comment grows by a line carrying its closer, or loses its last remark line), or nested in an untouched outer block whose start tag shares the comment) separated by 5 padding lines, each with 0..2 rules (keep-sorted, keep-unique, line-pattern, line-count, check-lua echo/nil; violating or not by chance) and a *set* of edit classes: inside (replace / insert / pure deletion / blanking of a content line / removal of trailing blanks only), tag-only (substitute or insert a character of an attribute value, append an attribute, change the last attribute's value, delete an attribute, delete a second `>` right after the tag — at the line's tail when the tag ends its line), end-tag-only (text after </block>, whitespace in </ block >), plus edits of padding lines (outside) and untouched blocks; a 600-byte attribute in one tag of seven; multi-byte text before the tag and inside it (an attribute in front of the edited one) in 25%; real `git diff -U0..10`, in a third of the cases with a deleted file and an emptied file in front of the others; optional path arguments. Oracle: (a) `list` in diff mode = exactly the inside/tag-only blocks with is_content_modified exactly for inside; (b) diff-mode diagnostics = full-scan diagnostics restricted to the selected blocks' extents, exit status accordingly; (c) with path arguments = full scan of those files + diff-mode result of the others. enumerated sweep: every byte position of the start tag, the comment text before and after it, the content, the whole end-tag comment and the code after it in 3 one-line block templates (ASCII, multi-byte before the tag, indented) x {substitute, insert, delete}. Non-trivial (random) = a violating untouched block, a violating selected block and a tag-only block; (sweep) = a region boundary or a position where byte and character columns differ.".into();
+    run.rule = "enumerated no-selection: diffs made only of deletions / binary changes / mode changes / pure renames (every combination) next to an untouched violating file: nothing is validated, `list` prints `{}`. random: 1..3 files (js, sh, rs, py, c) x 2..7 uniquely named non-nested blocks (own-line line comments, own-line block comments, everything on one line, a start tag spread over three lines with the edited attribute on the middle one, both tags inside one multi-line block comment (whose text behind the tags is in half of the cases edited too: the comment grows by a line carrying its closer, or loses its last remark line), or nested in an untouched outer block whose start tag shares the comment) separated by 5 padding lines, each with 0..2 rules (keep-sorted, keep-unique, line-pattern, line-count, check-lua echo/nil; violating or not by chance) and a *set* of edit classes: inside (replace / insert / pure deletion / blanking of a content line / removal of trailing blanks only), tag-only (substitute or insert a character of an attribute value, append an attribute, change the last attribute's value, delete an attribute, delete a second `>` right after the tag — at the line's tail when the tag ends its line), end-tag-only (text after </block>, whitespace in </ block >), plus edits of padding lines (outside; in a fifth of the files some of them are pure deletions of a line directly above a block's start-tag line - code outside the block: mismatches of exactly that shape are attributed to listed finding K9) and untouched blocks; a 600-byte attribute in one tag of seven; multi-byte text before the tag and inside it (an attribute in front of the edited one) in 25%; real `git diff -U0..10`, in a third of the cases with a deleted file and an emptied file in front of the others; optional path arguments. Oracle: (a) `list` in diff mode = exactly the inside/tag-only blocks with is_content_modified exactly for inside; (b) diff-mode diagnostics = full-scan diagnostics restricted to the selected blocks' extents, exit status accordingly; (c) with path arguments = full scan of those files + diff-mode result of the others. enumerated sweep: every byte position of the start tag, the comment text before and after it, the content, the whole end-tag comment and the code after it in 3 one-line block templates (ASCII, multi-byte before the tag, indented) x {substitute, insert, delete}. Non-trivial (random) = a violating untouched block, a violating selected block and a tag-only block; (sweep) = a region boundary or a position where byte and character columns differ.".into();
     run.assumptions = vec![
         "pure line deletions are only generated where no earlier net line shift exists in the file (K1 excluded by construction, counted)".into(),
         "the sweep edits the OLD line only (the parsed NEW line is always the intact template); a deletion directly adjoining the start tag's `<` or `>` is unspecified and not judged".into(),
     ];
     run.sentinel("K4", "sweep", check_sweep);
+    run.sentinel("K9", "touch", check);
     run.enumerate("sweep", sweep_cases(), Some("every byte position of the safe regions of 3 inline templates x 3 character edits"), check_sweep);
     run.shrink_iters = 200;
     run.random("touch", run.tier.pick(1200, 30000), case_strategy, check);
